@@ -89,25 +89,40 @@ def main():
     print("confirmed:", json.dumps(meta["confirmed"]))
     ok = all(meta["confirmed"].get(k) for k in ("applies", "builds", "demo_passes_without_change", "demo_fails_with_change", "existing_suite_passes_with_change"))
     # ---- 2. run the checks against it ----
-    rc, out = run("git -C /repo status --porcelain")
+    isolated = "--isolated" in args
+    target = "/repo"
+    check_env = {}
+    if isolated:
+        # do not touch /repo (something else is using it): apply in another scratch worktree and point the checks at it
+        target = "/tmp/seeds/target-%s" % name
+        run("git -C /repo worktree remove --force %s" % target)
+        rc, out = run("git -C /repo worktree add -q --detach %s HEAD" % target)
+        if rc != 0:
+            print(out); return 2
+        check_env = {"VERIF_REPO": target}
+    rc, out = run("git -C %s status --porcelain" % target)
     if out.strip():
-        print("/repo is dirty, refusing:", out); return 2
-    rc, out = run("git -C /repo apply %s" % patch)
+        print(target, "is dirty, refusing:", out); return 2
+    rc, out = run("git -C %s apply %s" % (target, patch))
     if rc != 0:
-        print("cannot apply to /repo:", out); return 2
+        print("cannot apply to", target, out); return 2
     import tempfile
     evidence_backup = tempfile.mkdtemp(prefix="evidence-")
     shutil.copytree("/verif/evidence", evidence_backup + "/e")
     try:
         for c in checks:
             t0 = time.time()
-            rc, out = run(["/verif/check", c, "--tier", tier], cwd="/verif", timeout=3600)
+            rc, out = run(["/verif/check", c, "--tier", tier], cwd="/verif", timeout=3600, env=check_env)
             lines = [l for l in out.splitlines() if l.startswith(("VIOLATION", "OK ", "INCONCLUSIVE", "KNOWN"))]
             detail = [l.strip() for l in out.splitlines() if "] " in l and " [" in l and ("C" in l)][:3]
             meta["checks"][c] = {"rc": rc, "verdict": "detected" if rc == 1 else ("missed" if rc == 0 else "inconclusive"), "lines": lines[:4], "detail": detail, "wall_s": round(time.time() - t0, 1), "tier": tier}
             print(c, meta["checks"][c]["verdict"], lines[:2], detail[:1])
     finally:
-        run("git -C /repo checkout -- .")
+        if isolated:
+            run("git -C /repo worktree remove --force %s" % target)
+            run("rm -rf /verif/.build-alt-*")
+        else:
+            run("git -C /repo checkout -- .")
         # evidence must describe runs on the unchanged tree: put back what was there before the mutant runs
         shutil.rmtree("/verif/evidence", ignore_errors=True)
         shutil.copytree(evidence_backup + "/e", "/verif/evidence")
